@@ -19,6 +19,91 @@ type Pattern struct {
 	After  [3]int `json:"after"` // 0 value, 1 NULL, 2 absent
 	Rows2  bool   `json:"rows2"` // a second row with the same presence and a rotated NULL pattern
 	Wide   int    `json:"wide"`  // >0: use the wide table, value set index Wide-1
+	Tab    string `json:"tab,omitempty"` // "" item table; "S"/"T" integer tables of mixed signedness; "N" string table
+}
+
+// Cell modes of a Pattern: 0 value, 1 NULL, 2 absent, 3 alternative value
+// (the empty string for string columns, the other extreme for integers).
+
+// patternTable returns the table of a pattern.
+func patternTable(tab string) *ref.Table {
+	switch tab {
+	case "S":
+		return &ref.Table{ID: 72, DB: "shop", Name: "nums", Flags: 1, Cols: []ref.Column{
+			ref.ColInt(ref.TTiny, "u8", true), ref.ColInt(ref.TShort, "i16", false), ref.ColInt(ref.TLongLong, "u64", true)}}
+	case "T":
+		return &ref.Table{ID: 73, DB: "shop", Name: "nums2", Flags: 1, Cols: []ref.Column{
+			ref.ColInt(ref.TLong, "i32", false), ref.ColInt(ref.TInt24, "u24", true), ref.ColInt(ref.TTiny, "i8", false)}}
+	case "N":
+		return &ref.Table{ID: 74, DB: "shop", Name: "texts", Flags: 1, Cols: []ref.Column{
+			ref.ColVarchar("vc", 255), ref.ColChar("ch", 300), ref.ColBlob("bl", 2)}}
+	}
+	return TA(70)
+}
+
+func patternCell(tab string, col, mode, variant int) ref.Cell {
+	switch mode {
+	case 1:
+		return ref.Cell{Null: true}
+	case 2:
+		return ref.Cell{Absent: true}
+	}
+	alt := mode == 3
+	switch tab {
+	case "S":
+		switch col {
+		case 0:
+			if alt {
+				return ref.VInt(ref.TTiny, 128, true)
+			}
+			return ref.VInt(ref.TTiny, int64(255-variant), true)
+		case 1:
+			if alt {
+				return ref.VInt(ref.TShort, -32768, false)
+			}
+			return ref.VInt(ref.TShort, int64(-1-variant), false)
+		}
+		if alt {
+			return ref.VUint64(1 << 63)
+		}
+		return ref.VUint64(^uint64(0) - uint64(variant))
+	case "T":
+		switch col {
+		case 0:
+			if alt {
+				return ref.VInt(ref.TLong, -2147483648, false)
+			}
+			return ref.VInt(ref.TLong, int64(-5-variant), false)
+		case 1:
+			if alt {
+				return ref.VInt(ref.TInt24, 8388608, true)
+			}
+			return ref.VInt(ref.TInt24, int64(16777215-variant), true)
+		}
+		if alt {
+			return ref.VInt(ref.TTiny, -128, false)
+		}
+		return ref.VInt(ref.TTiny, int64(-1-variant), false)
+	case "N":
+		val := []byte("v\x00'\"\\\n\xe2\x82\xac")
+		if variant == 1 {
+			val = []byte("second row")
+		}
+		if alt {
+			val = []byte{}
+		}
+		switch col {
+		case 0:
+			return ref.VVarchar(255, val)
+		case 1:
+			return ref.VChar(300, val)
+		}
+		return ref.VBlob(2, val)
+	}
+	if alt {
+		mode = 0
+	}
+	return cellOf(col, mode, variant)
 }
 
 func cellOf(col int, mode int, variant int) ref.Cell {
@@ -40,10 +125,10 @@ func cellOf(col int, mode int, variant int) ref.Cell {
 	return ref.VInt(ref.TShort, int64(65535-variant), true)
 }
 
-func imageOf(modes [3]int, variant int) ref.Image {
+func imageOf(tab string, modes [3]int, variant int) ref.Image {
 	img := make(ref.Image, 3)
 	for c := 0; c < 3; c++ {
-		img[c] = cellOf(c, modes[c], variant)
+		img[c] = patternCell(tab, c, modes[c], variant)
 	}
 	return img
 }
@@ -57,6 +142,8 @@ func rotNull(m [3]int) [3]int {
 			o[i] = 1
 		case 1:
 			o[i] = 0
+		case 3:
+			o[i] = 0
 		default:
 			o[i] = 2
 		}
@@ -65,7 +152,7 @@ func rotNull(m [3]int) [3]int {
 }
 
 func (p Pattern) events(g *Gen) []*ref.AEvent {
-	ta := TA(70)
+	ta := patternTable(p.Tab)
 	if p.Wide > 0 {
 		return wideEvents(g, p)
 	}
@@ -74,10 +161,10 @@ func (p Pattern) events(g *Gen) []*ref.AEvent {
 	mk := func(b, a [3]int, variant int) ref.RowChange {
 		rc := ref.RowChange{}
 		if p.Kind != 0 {
-			rc.Before = imageOf(b, variant)
+			rc.Before = imageOf(p.Tab, b, variant)
 		}
 		if p.Kind != 2 {
-			rc.After = imageOf(a, variant)
+			rc.After = imageOf(p.Tab, a, variant)
 		}
 		return rc
 	}
@@ -119,6 +206,7 @@ func runC01(r *chk.Run) {
 				}
 				p := Pattern{Kind: kind, Before: [3]int{b % 3, b / 3 % 3, b / 9}, After: [3]int{a % 3, a / 3 % 3, a / 9}}
 				for ci, cfg := range cfgs {
+					cfg.PadOnes = ci%4 >= 2 // half of the configurations with the bitmaps' padding bits set
 					p.Rows2 = (ci+a+b)%2 == 0
 					pp := p
 					hr.add(HistInput{Units: []string{UDDL, "pattern", UTxXID}, Cfg: cfg, Pattern: &pp, LockStep: ci%2 == 0, Oracle: "fidelity"})
@@ -209,3 +297,57 @@ var (
 	wideReady    = false
 	wideVariants = 0
 )
+
+// patternSpace enumerates every {value, NULL, absent, alternative}^3 pattern of
+// write / delete images and of update (before, after) pairs on table tab.
+func patternSpace(tab string, f func(p Pattern)) {
+	all := func(i int) [3]int { return [3]int{i % 4, i / 4 % 4, i / 16} }
+	allAbsent := func(m [3]int) bool { return m[0] == 2 && m[1] == 2 && m[2] == 2 }
+	for kind := 0; kind < 3; kind++ {
+		for b := 0; b < 64; b++ {
+			for a := 0; a < 64; a++ {
+				if kind == 0 && b != 0 || kind == 2 && a != 0 {
+					continue
+				}
+				mb, ma := all(b), all(a)
+				if (kind == 0 && allAbsent(ma)) || (kind == 2 && allAbsent(mb)) || (kind == 1 && allAbsent(ma) && allAbsent(mb)) {
+					continue
+				}
+				f(Pattern{Kind: kind, Before: mb, After: ma, Tab: tab, Rows2: (a+b)%2 == 1})
+			}
+		}
+	}
+}
+
+func runPatternSpace(r *chk.Run, prop string, tabs []string, what string) {
+	hr := newHistRunner(r, prop, checkGrouping)
+	cfgA := ref.Cfg{Checksum: ref.ChecksumCRC32, RowsV2: true, TableID6: true, ServerID: 5, ServerVer: "5.7.30-log"}
+	cfgB := ref.Cfg{Checksum: ref.ChecksumOff, RowsV2: false, TableID6: false, ServerID: 5, ServerVer: "5.6.40", PadOnes: true}
+	n := 0
+	for _, tab := range tabs {
+		patternSpace(tab, func(p Pattern) {
+			for ci, cfg := range []ref.Cfg{cfgA, cfgB} {
+				pp := p
+				hr.add(HistInput{Units: []string{"pattern"}, Cfg: cfg, Pattern: &pp, LockStep: ci == 0, Oracle: "fidelity"})
+				n++
+			}
+		})
+	}
+	hr.finish()
+	r.Set("e2e_pattern_histories", n)
+	r.Set("e2e_space", what)
+}
+
+// RunSignedness is the end-to-end half of C10: integer columns of every width
+// whose signedness (taken from the table mapper by ordinal) alternates, with
+// top-bit values, in every {value, NULL, absent, other extreme}^3 image pattern.
+func RunSignedness(r *chk.Run) {
+	runPatternSpace(r, "C10", []string{"S", "T"}, "tables (u8 TINY unsigned, i16 SMALLINT signed, u64 BIGINT unsigned) and (i32 INT signed, u24 MEDIUMINT unsigned, i8 TINYINT signed) with top-bit values; all 64 / 64 / 4096 {value, NULL, absent, other extreme}^3 patterns of write / delete / update images x 2 wire configurations (one with bitmap padding bits set), streamed through the real Stream with a mapper that marks signedness by ordinal")
+	r.Sample("e2e", map[string]interface{}{"table": "nums(u8 unsigned, i16 signed, u64 unsigned)", "before": "absent,value,value", "expect": "i16=-1 u64=18446744073709551615"})
+}
+
+// RunNullEmptyAbsent is the end-to-end half of C13.
+func RunNullEmptyAbsent(r *chk.Run) {
+	runPatternSpace(r, "C13", []string{"N"}, "table (VARCHAR max 255 bytes, CHAR max 300 bytes, BLOB 2 length bytes); all 64 / 64 / 4096 {value, NULL, absent, empty string}^3 patterns of write / delete / update images x 2 wire configurations, streamed through the real Stream: NULL => Data nil and not IsEmpty, empty => Data non-nil with length 0, absent => IsEmpty")
+	r.Sample("e2e", map[string]interface{}{"table": "texts(vc, ch, bl)", "after": "empty,NULL,absent", "expect": "vc: Data=[] ; ch: Data=nil ; bl: IsEmpty"})
+}
